@@ -106,5 +106,62 @@ def main(payload):
     os._exit(0)
 
 
+def blocks(payload):
+    """Several `with experiment(...)` blocks one after the other in THIS process, sharing one token object: each
+    block runs `per` jobs that depend on the token (real processes, exit status 0)."""
+    import logging
+    logging.disable(logging.CRITICAL)
+    signal.alarm(int(payload.get("alarm", 70)))
+    import experimaestro
+    from experimaestro import FailedExperiment
+    from experimaestro.scheduler import experiment
+    from experimaestro.tokens import CounterToken, ProcessCounterToken
+    from vpk_sched.procs import Alone
+
+    src = str(Path(experimaestro.__file__).parents[1])
+    harness = str(Path(__file__).parent)
+    tmp = Path(tempfile.mkdtemp(prefix="xpmverif-procs-"))
+    out = dict(blocks=[], error=None)
+    try:
+        control = tmp / "control"
+        control.mkdir()
+        cap = int(payload.get("capacity", 1))
+        token = (CounterToken("verif-blocks", tmp / "token", cap) if payload.get("token") == "file"
+                 else ProcessCounterToken(cap))
+        for b in range(int(payload.get("nblocks", 2))):
+            rec = dict(jobs=[], raised=False)
+            tasks = []
+            try:
+                with experiment(tmp / "xp", f"block{b}", port=-1) as xp:
+                    xp.workspace.launcher.setenv("PYTHONPATH", f"{src}:{harness}")
+                    for i in range(int(payload.get("per", 2))):
+                        t = Alone(name=f"b{b}j{i}", control=control)
+                        t.add_dependencies(token.dependency(1))
+                        t.submit()
+                        tasks.append(t)
+                    if payload.get("wait_jobs", True):
+                        for t in tasks:
+                            t.__xpm__.job.wait()
+            except FailedExperiment:
+                rec["raised"] = True
+            for t in tasks:
+                job = t.__xpm__.job
+                rec["jobs"].append(dict(name=job.config.name, state=job.state.name, done_file=job.donepath.is_file(),
+                                        started=(control / f"{job.config.name}.started").exists()))
+            out["blocks"].append(rec)
+            time.sleep(float(payload.get("pause", 0.3)))     # let the scheduler of the block stop completely
+        out["available"] = token.available
+    except BaseException as e:  # noqa
+        out["error"] = "".join(traceback.format_exception(type(e), e, e.__traceback__))[-1500:]
+    finally:
+        shutil.rmtree(tmp, ignore_errors=True)
+    sys.stdout.write("\n" + json.dumps(out) + "\n")
+    sys.stdout.flush()
+    os._exit(0)
+
+
 if __name__ == "__main__":
-    main(json.load(sys.stdin))
+    pl = json.load(sys.stdin)
+    if pl.get("mode") == "blocks":
+        blocks(pl)
+    main(pl)
